@@ -178,9 +178,9 @@ pub fn alphabet_sweep(r: &mut Rng, dynamic: bool) -> (Vec<u8>, Vec<u8>) {
         w.put(2, 2);
         let mut cfg = gen::GenCfg::random(r, 0);
         cfg.max_code_len = 15;
-        cfg.slack = r.chance(1, 2);
+        cfg.slack = false;
         let (ll, dl) = gen::dynamic_lengths_for(r, &toks, &cfg);
-        gen::write_dynamic_header(r, &mut w, &ll, &dl, cfg.slack, false);
+        gen::write_dynamic_header(r, &mut w, &ll, &dl, false, false);
         let (llc, dlc) = (gen::canon_codes(&ll), gen::canon_codes(&dl));
         gen::write_tokens(&mut w, &toks, &ll, &llc, &dl, &dlc);
     } else {
